@@ -34,6 +34,15 @@ def configs(tier):
             # physical ids far from the positions (a job pinned to cores 20.., 40..): values that name a CPU must use the position
             spec.append({"name": "n%d" % li, "cpus": [(ci, (nc - 1 - ci) + 20 * (li + 1)) for ci in range(nc)], "procs": procs})
         out.append(spec)
+    # one large machine: 11 looms (names of one and two digits) x 3 processes x 4 threads, 12 CPUs per loom, ranks
+    spec = []
+    for li in range(11):
+        procs = []
+        for pi in range(3):
+            pid = 1000 * (li + 1) + 10 * pi
+            procs.append({"pid": pid, "app": 1 + pi, "rank": 3 * (10 - li) + (2 - pi), "nranks": 33, "threads": [pid + 1 + ti for ti in range(4)]})
+        spec.append({"name": "node%d" % li, "cpus": [(ci, (11 - ci) + 20 * (li + 1)) for ci in range(12)], "procs": procs})
+    out.append(spec)
     return out
 
 
